@@ -176,7 +176,17 @@ def block_of(stmt):
 
 def read(repo, rel):
     with open(os.path.join(repo, rel), encoding='utf-8') as f:
-        return strip_comments(f.read())
+        return f.read()
+
+
+def item_at(src, regex, what):
+    """Find `regex` in the raw source (must occur exactly once) and return the comment-free text from its start.
+    Lexing starts at the item, so exotic literals elsewhere in the file cannot desynchronise it."""
+    ms = list(re.finditer(regex, src))
+    ms = [m for m in ms if '//' not in src[src.rfind('\n', 0, m.start()) + 1:m.start()]]
+    if len(ms) != 1:
+        raise Unrecognised('%s: expected exactly one occurrence, found %d' % (what, len(ms)))
+    return strip_comments(src[ms[0].start():])
 
 
 def rust_bytes_literal(lit):
@@ -206,14 +216,16 @@ def rust_bytes_literal(lit):
 
 
 def const_bytes(src, name):
-    m = re.search(r'\bconst\s+%s\s*:\s*&\s*\[\s*u8\s*\]\s*=\s*(b"(?:\\.|[^"\\])*")\s*;' % name, src)
+    src = item_at(src, r'\bconst\s+%s\b' % name, 'const ' + name)
+    m = re.match(r'const\s+%s\s*:\s*&\s*\[\s*u8\s*\]\s*=\s*(b"(?:\\.|[^"\\])*")\s*;' % name, src)
     if not m:
         raise Unrecognised('const %s: &[u8] = b"..." not found' % name)
     return rust_bytes_literal(m.group(1))
 
 
 def const_u8(src, name):
-    m = re.search(r'\bconst\s+%s\s*:\s*u8\s*=\s*([0-9]+|0x[0-9a-fA-F]+)\s*;' % name, src)
+    src = item_at(src, r'\bconst\s+%s\b' % name, 'const ' + name)
+    m = re.match(r'const\s+%s\s*:\s*u8\s*=\s*([0-9]+|0x[0-9a-fA-F]+)\s*;' % name, src)
     if not m:
         raise Unrecognised('const %s: u8 = <int> not found' % name)
     v = int(m.group(1), 0)
@@ -223,7 +235,8 @@ def const_u8(src, name):
 
 
 def env_allow_list(src, name='CACHED_ENV_VARS'):
-    m = re.search(r'\bstatic\s+%s\s*:\s*Lazy\s*<\s*HashSet\s*<\s*&\s*\'static\s+OsStr\s*>\s*>\s*=\s*Lazy::new\s*\(\s*\|\|\s*\{' % name, src)
+    src = item_at(src, r'\bstatic\s+%s\b' % name, 'static ' + name)
+    m = re.match(r'static\s+%s\s*:\s*Lazy\s*<\s*HashSet\s*<\s*&\s*\'static\s+OsStr\s*>\s*>\s*=\s*Lazy::new\s*\(\s*\|\|\s*\{' % name, src)
     if not m:
         raise Unrecognised('static %s: Lazy<HashSet<&\'static OsStr>> not found' % name)
     o = m.end() - 1
@@ -252,7 +265,9 @@ def env_allow_list(src, name='CACHED_ENV_VARS'):
 
 def language_table(src):
     """[(variant name, tag bytes)] in the order of the `enum Language` declaration."""
-    m = re.search(r'\bpub\s+enum\s+Language\s*\{', src)
+    raw = src
+    src = item_at(raw, r'\bpub\s+enum\s+Language\b', 'enum Language')
+    m = re.match(r'pub\s+enum\s+Language\s*\{', src)
     if not m:
         raise Unrecognised('enum Language not found')
     c = match_close(src, m.end() - 1, '{', '}')
@@ -260,6 +275,11 @@ def language_table(src):
     for v in variants:
         if not re.fullmatch(r'[A-Z][A-Za-z0-9]*', v):
             raise Unrecognised('enum Language: variant %r is not a plain unit variant' % v)
+    m = re.search(r'\bimpl\s+Language\s*\{', src)
+    if not m:
+        raise Unrecognised('impl Language not found after the enum')
+    src = src[m.start():]
+    src = src[:match_close(src, src.index('{'), '{', '}') + 1]
     m = re.search(r'\bpub\s+fn\s+as_str\s*\(\s*self\s*\)\s*->\s*&\s*\'static\s+str\s*\{', src)
     if not m:
         raise Unrecognised('Language::as_str not found')
@@ -300,7 +320,8 @@ ID = r'[A-Za-z_][A-Za-z0-9_]*'
 
 
 def function(src, name):
-    m = re.search(r'\bpub\s+fn\s+%s\s*\(' % name, src)
+    src = item_at(src, r'\bpub\s+fn\s+%s\s*\(' % name, 'fn ' + name)
+    m = re.match(r'pub\s+fn\s+%s\s*\(' % name, src)
     if not m:
         raise Unrecognised('fn %s not found' % name)
     po = m.end() - 1
@@ -383,7 +404,7 @@ def parse_key_function(src, name, version_const):
             shape.append(('CLang',))
         elif 'pp' in P and s == '%s.update(%s)' % (m, P['pp']):
             shape.append(('CPP',))
-        elif s.startswith('for '):
+        elif re.match(r'for\b', s):
             head, inner = block_of(s)
             inner = [norm(x) for x in split_statements(inner)]
             h = re.fullmatch(r'for (%s) in (%s)(?:\.iter\(\))?' % (ID, ID), head)
